@@ -352,7 +352,11 @@ func (p *path) addRule(
 		invalid(tok)
 	}
 
-	if y, ok := cursor.methods[verb]; ok || cursor.methodAll != nil {
+	y, ok := cursor.methods[verb]
+	if !ok && cursor.methodAll != nil {
+		y, ok = cursor.methodAll, true
+	}
+	if ok {
 		if y.desc.FullName() != desc.FullName() {
 			return fmt.Errorf("duplicate rule %v", rule)
 		}
